@@ -310,8 +310,8 @@ def build_model(plugin):
     ex = (
         "Require Import ExtrOcamlBasic.\n"
         "From CSS Require Import Base.Sx %s.\n"
-        "Definition run := %s.\n"
-        'Extraction "%s.ml" run.\n' % (mod, fn, name)
+        "Definition sx_main_entry := %s.\n"
+        'Extraction "%s.ml" sx_main_entry.\n' % (mod, fn, name)
     )
     _wfile(os.path.join(wd, "Ex.v"), ex)
     rc, out = sh("timeout 300 coqc -Q %s CSS Ex.v" % THEORIES, cwd=wd, timeout=330)
@@ -411,6 +411,7 @@ def _quiet_logging():
     try:
         import logging
 
+        import comb_spec_searcher  # noqa: F401  (sets the log level to INFO at import time)
         import logzero
 
         logzero.loglevel(logging.ERROR)
